@@ -213,10 +213,34 @@ def shrink_prelude(case):
                 yield dict(case, prelude=case['prelude'][:k] + case['prelude'][k + 1:])
 
 
-def subscribe2(obs, out, what, same=None):
+def subscribe2(obs, out, what, same=None, abuse=True):
     """Subscribe the SAME observable object twice (what ops.repeat / retry or a second observer do): a cold
     pipeline owes every subscription the same events.  Returns the first Snap; a difference is a failure."""
     a = subscribe(obs, Snap())
+    if abuse:
+        # between the two judged subscriptions the observable is peeked at and abandoned (take(1), subscribed from
+        # inside a trampoline so that the disposal really reaches the source mid-stream) and serves a consumer that
+        # raises on its first item: what these leave behind must not show in the next subscription
+        import rx.operators as rxops
+        from rx.scheduler import CurrentThreadScheduler
+
+        def peek(_, __):
+            try:
+                obs.pipe(rxops.take(1)).subscribe(on_next=lambda i: None, on_error=lambda e: None)
+            except Exception:           # noqa: BLE001 - not judged
+                pass
+        try:
+            CurrentThreadScheduler.singleton().schedule(peek)
+        except Exception:               # noqa: BLE001
+            pass
+
+        def boom(_i):
+            raise RuntimeError('the consumer failed on its first item')
+        try:
+            obs.subscribe(on_next=boom, on_error=lambda e: None)
+        except Exception:               # noqa: BLE001 - not judged
+            pass
+        out.observed['abandoned_subscriptions_before_the_second_one'] += 2
     b = subscribe(obs, Snap())
     out.observed['second_subscriptions_of_one_observable'] += 1
     eq = same or (lambda x, y: x == y and [type(i) for i in x] == [type(i) for i in y])
